@@ -143,8 +143,23 @@ fn words(n: usize, all: bool) -> Vec<String> {
     w
 }
 
+/// The content of one inner list read WITHOUT any iterator: the verification hook walks the `next` pointers, the key of
+/// each node is read in place and its value looked up with `peek` on that list.  This is the list the iterators are judged
+/// against (C14 is about the iterators, not about how the list got its order).
+fn witness<E: caches::OnEvictCallback, S: std::hash::BuildHasher>(l: &RawLRU<TK, TV, E, S>) -> Vec<Value> {
+    let a = l.verif_audit();
+    a.fwd
+        .iter()
+        .map(|&addr| {
+            let k: &TK = unsafe { &*((addr + a.key_offset) as *const TK) };
+            json!([k.id.0, caches::Cache::peek(l, k).map(|v| v.read()).unwrap_or(0)])
+        })
+        .collect()
+}
+
 trait IterSut: Sut<TK> {
     const LISTS: &'static [&'static str];
+    fn witness(&self, list: &str) -> Vec<Value>;
     fn run(&mut self, list: &str, fam: &str, word: &str) -> Option<(Log, usize, Vec<Value>)>;
     fn list_len(&self, list: &str) -> usize;
 }
@@ -176,6 +191,9 @@ impl IterSut for Raw<TK> {
     fn list_len(&self, _: &str) -> usize {
         caches::Cache::len(self)
     }
+    fn witness(&self, _: &str) -> Vec<Value> {
+        witness(self)
+    }
     fn run(&mut self, _list: &str, fam: &str, word: &str) -> Option<(Log, usize, Vec<Value>)> {
         let lg = match fam {
             "into_iter" => run_shared((&*self).into_iter(), word),
@@ -187,6 +205,14 @@ impl IterSut for Raw<TK> {
 }
 impl IterSut for TwoQ<TK> {
     const LISTS: &'static [&'static str] = &["recent", "frequent", "ghost"];
+    fn witness(&self, list: &str) -> Vec<Value> {
+        let (r, f, g) = self.verif_parts();
+        match list {
+            "recent" => witness(r),
+            "frequent" => witness(f),
+            _ => witness(g),
+        }
+    }
     fn list_len(&self, list: &str) -> usize {
         match list {
             "recent" => self.recent_len(),
@@ -213,6 +239,15 @@ impl IterSut for TwoQ<TK> {
 }
 impl IterSut for Arc<TK> {
     const LISTS: &'static [&'static str] = &["recent", "frequent", "recent_evict", "frequent_evict"];
+    fn witness(&self, list: &str) -> Vec<Value> {
+        let (r, f, re, fe) = self.verif_parts();
+        match list {
+            "recent" => witness(r),
+            "frequent" => witness(f),
+            "recent_evict" => witness(re),
+            _ => witness(fe),
+        }
+    }
     fn list_len(&self, list: &str) -> usize {
         match list {
             "recent" => self.recent_len(),
@@ -278,6 +313,7 @@ fn run_kind<S: IterSut>(a: &crate::Args) -> Value {
         out.boundary();
         for list in S::LISTS {
             let n = probe.list_len(list);
+            let wit = probe.witness(list);
             for (fam, kind, proj, mutable) in FAMILIES {
                 for word in words(n, all_words) {
                     // every run starts from a freshly replayed state (mutable families write)
@@ -288,13 +324,13 @@ fn run_kind<S: IterSut>(a: &crate::Args) -> Value {
                             "op": "iter", "path": path, "list": list, "fam": fam, "kind": kind, "proj": proj, "mutable": mutable,
                             "word": word.chars().map(|c| c.to_string()).collect::<Vec<_>>(),
                             "yields": lg.yields, "hints": lg.hints, "count": lg.count, "clones": lg.clones, "len": len,
-                            "hint_consistent": lg.hint_consistent, "after": aft, "panic": false}),
+                            "hint_consistent": lg.hint_consistent, "after": aft, "witness": wit, "panic": false}),
                         Ok(None) => continue, // family does not exist for this type (into_iter on composite lists)
                         Err(_) => {
                             panics += 1;
                             json!({"op":"iter","path":path,"list":list,"fam":fam,"kind":kind,"proj":proj,"mutable":mutable,
                                    "word": word.chars().map(|c| c.to_string()).collect::<Vec<_>>(),"panic":true,
-                                   "yields":[],"hints":[],"count":0,"clones":[],"len":0,"after":[],"hint_consistent":false})
+                                   "yields":[],"hints":[],"count":0,"clones":[],"len":0,"after":[],"witness":wit,"hint_consistent":false})
                         }
                     };
                     events += 1;
